@@ -1,6 +1,6 @@
 """Per-property configuration: harness groups, work items per tier, bounds, assumptions."""
 
-RT_SYM = ["rt/rt_sym.go", "models/fmtmodel.go"]
+RT_SYM = ["rt/rt_sym.go", "models/fmtmodel.go", "models/syncmodel.go"]
 RT_NAT = ["rt/rt_native.go"]
 
 A_COMMON = [
@@ -90,7 +90,9 @@ CHECKS["C11"] = {
                     {"id": "c11-comp-3-4-3", "entry": "HarnessC11Compose", "params": {"nSub": 3, "nB": 4, "nC": 3}, "_w": 400, "shards": 3},
                     {"id": "c11-comp-1-5-3", "entry": "HarnessC11Compose", "params": {"nSub": 1, "nB": 5, "nC": 3}, "_w": 200},
                     {"id": "c11-fin-3-3", "entry": "HarnessC11FinalAddr", "params": {"nReg": 3, "nReal": 3}, "_w": 300},
-                    {"id": "c11-fin-1-4", "entry": "HarnessC11FinalAddr", "params": {"nReg": 1, "nReal": 4}, "_w": 100}],
+                    {"id": "c11-fin-1-4", "entry": "HarnessC11FinalAddr", "params": {"nReg": 1, "nReal": 4}, "_w": 100},
+                    {"id": "c11-fin-0-3", "entry": "HarnessC11FinalAddr", "params": {"nReg": 0, "nReal": 3}, "_w": 10},
+                    {"id": "c11-fin-3-0", "entry": "HarnessC11FinalAddr", "params": {"nReg": 3, "nReal": 0}, "_w": 10}],
                  thorough=c11_items([0, 1, 2], [0, 1, 2, 3, 4, 5, 6], [2, 3, 4, 5, 6, 7, 8, 9]) + c11_items([3], [2, 3, 4, 5, 6, 7], [2, 3, 4, 5, 6, 7])
                  + [{"id": "c11-abs", "entry": "HarnessC11Abs", "params": {"nSub": 5, "nSub2": 3}},
                     {"id": "c11-comp-4-5-5", "entry": "HarnessC11Compose", "params": {"nSub": 4, "nB": 5, "nC": 5}, "_w": 500, "shards": 8},
@@ -139,7 +141,15 @@ CHECKS["C06"] = {
         sa_group("roundtrip", ["harness/sourceaddrs/c06.go", "harness/sourceaddrs/c11.go"],
                  quick=tmpl_items("src", "HarnessC06Source", C06_SRC_Q) + tmpl_items("fin", "HarnessC06Final", C06_FIN_Q) + tmpl_items("pkg", "HarnessC06Package", C06_PKG_Q)
                  + [{"id": "derived-3", "entry": "HarnessC06Derived", "sparams": {"tmpl": "git::https://example.com/repo.git"}, "params": {"nSub": 3}, "_w": 3},
-                    {"id": "derived-q-2", "entry": "HarnessC06Derived", "sparams": {"tmpl": "https://example.com/a.tgz?x=1"}, "params": {"nSub": 2}, "_w": 2}],
+                    {"id": "derived-q-2", "entry": "HarnessC06Derived", "sparams": {"tmpl": "https://example.com/a.tgz?x=1"}, "params": {"nSub": 2}, "_w": 2},
+                    {"id": "resolved-1", "entry": "HarnessC06Resolved", "sparams": {"base": "./{1}", "rel": "./{3}"}, "_w": 4},
+                    {"id": "resolved-2", "entry": "HarnessC06Resolved", "sparams": {"base": "./a/b", "rel": "../{3}"}, "_w": 3},
+                    {"id": "resolved-3", "entry": "HarnessC06Resolved", "sparams": {"base": "../{2}", "rel": "../{2}"}, "_w": 3},
+                    {"id": "resolved-4", "entry": "HarnessC06Resolved", "sparams": {"base": "git::https://example.com/r.git//a", "rel": "../{3}"}, "_w": 3},
+                    {"id": "resolved-5", "entry": "HarnessC06Resolved", "sparams": {"base": "hashicorp/subnets/cidr//m", "rel": "./{3}"}, "_w": 3},
+                    {"id": "versioned-1", "entry": "HarnessC06Versioned", "sparams": {"reg": "hashicorp/subnets/cidr", "tmpl": "1.2.3-{a1}+{a1}"}, "_w": 2},
+                    {"id": "versioned-2", "entry": "HarnessC06Versioned", "sparams": {"reg": "example.com/a/b/c//sub", "tmpl": "0.{a1}.0+b{a1}.5"}, "_w": 2},
+                    {"id": "versioned-3", "entry": "HarnessC06Versioned", "sparams": {"reg": "a/b/c", "tmpl": "1.0.0{2}"}, "_w": 3}],
                  thorough=tmpl_items("src", "HarnessC06Source", [(t[0] if isinstance(t, tuple) else t).replace("{2}", "{3}") for t in C06_SRC_Q], shards=4)
                  + tmpl_items("fin", "HarnessC06Final", [(t[0] if isinstance(t, tuple) else t).replace("{2}", "{3}") for t in C06_FIN_Q], shards=2)
                  + tmpl_items("pkg", "HarnessC06Package", [(t[0] if isinstance(t, tuple) else t).replace("{2}", "{3}") for t in C06_PKG_Q], shards=4)
@@ -156,7 +166,7 @@ C07_REJECT = ["git::{chttp}://example.com/r.git", "{chttp}://example.com/a.tgz",
               "https://example.com/a.tgz?checksum={a1}", "https://example.com/a.zi{a1}", "https://example.com/a?archive=zi{a1}", "git::https://example.com/r.git//./{a1}",
               "git::https://example.com/r.git//a/../{a1}", "https://example.com/a.tgz//{a1}//b", "git::https://example.com/r.git?ref=a;{a1}", "h{a1}::https://example.com/r.tgz", "git::https://example.com/r.git//{a1}/./x", "git::https://example.com/r.git//../{a1}"]
 C07_ANY = [("{2}::https://example.com/r.git", 3), ("git::{2}://example.com/r.git", 3), ("git::https://example.com/r.git?{2}", 4), ("https://example.com/a.tgz?{2}", 4),
-           ("git::https://{2}example.com/r.git", 4), ("https://example.com/a.{2}", 4), ("git::https://example.com/r.git//{2}", 4), ("github.com/a/{2}", 3), ("{2}", 5), ("https:{2}", 3)]
+           ("git::https://{2}example.com/r.git", 4), ("https://example.com/a.{2}", 4), ("git::https://example.com/r.git//{2}", 4), ("github.com/a/{2}", 3), ("{2}", 5), ("https:{2}", 3), "git::https://example.com/r.git?{cref}=main", "git::https://example.com/r.git?ref=a&{cref}=b", "https://example.com/a.tgz?{cchecksum}=x", "https://example.com/a?{carchive}=tgz"]
 
 def make_items(tier):
     out = []
@@ -201,7 +211,7 @@ CHECKS["C07"] = {
 
 
 C19_PARSE_Q = [("{3}", 30), "./{3}", "../{2}", ("{1}::{2}", 5), ("a/b/c@{2}", 4), "github.com/{2}", "gitlab.com/a/{2}", "hashicorp/subnets/cidr@1.0.0//{2}", ("a/b/c//{2}", 3),
-               ("git::https://h/{2}", 5), ("https://h/a.tgz?{2}", 4), ("{2}/b/c", 5), "a/b/c@1.{2}", ("{2}@1.0.0", 5), "git::{2}", ("h/a/b/c//{2}", 3)]
+               ("git::https://h/{2}", 5), ("https://h/a.tgz?{2}", 4), ("{2}/b/c", 5), "a/b/c@1.{2}", ("{2}@1.0.0", 5), "git::{2}", ("h/a/b/c//{2}", 3), ("a/b/c?{3}", 6), "h{1}?x=a://b", ("a?{1}://{1}", 3)]
 
 CHECKS["C19"] = {
     "registered": False,
@@ -388,31 +398,31 @@ def c03_line_items(n, npaths, batch):
 
 CHECKS["C03"] = {
     "registered": False,
-    "level_text": "Bounded model checking: for every rule line of the enumerated family (all strings up to n characters over {a b . * ? / ! + ( | # space}) and 16 multi-line rule files, the real parse / translate-to-regexp / compile / evaluate code is compared with a reference built from the documented rule language, over every ASCII archive path of the stated lengths (symbolic). The compiled regular expression is turned into one solver term by a Thompson simulation of the program regexp/syntax compiles; the reference glob is a dynamic-programming term; z3 decides their equivalence.",
+    "level_text": "Bounded model checking: for every rule line of the enumerated family (all strings up to n characters over {a b . * ? / ! + ( | # space}) and 20 multi-line rule files, the real parse / translate-to-regexp / compile / evaluate code is compared with a reference built from the documented rule language, over every ASCII archive path of the stated lengths (symbolic). The compiled regular expression is turned into one solver term by a Thompson simulation of the program regexp/syntax compiles; the reference glob is a dynamic-programming term; z3 decides their equivalence.",
     "level_note": "Trusted: go/ssa, gosym, z3, the regexp encoding (Thompson simulation of the real compiled program; ASCII paths), text/scanner and bufio.Scanner run from SSA.",
     "explanation": "rule lines enumerated, path symbolic; equivalence of Excludes() with the documented semantics (defaults first, last match wins, negation, anchoring, directory suffix, *, ?, **)",
     "anchors": ["github.com/hashicorp/go-slug/internal/ignorefiles.readRules", "(*github.com/hashicorp/go-slug/internal/ignorefiles.rule).compile", "(*github.com/hashicorp/go-slug/internal/ignorefiles.rule).match",
                 "(*github.com/hashicorp/go-slug/internal/ignorefiles.Ruleset).Excludes"],
-    "bounds": {"quick": "rule lines of 1..2 characters (156 lines) x paths of 1..5 ASCII bytes; lines of 3 characters x paths of 3 bytes; 16 multi-line files x paths of 2..5 bytes",
+    "bounds": {"quick": "rule lines of 1..2 characters (156 lines) x paths of 1..5 ASCII bytes; lines of 3 characters x paths of 3 bytes; 20 multi-line files x paths of 2..5 bytes",
                "thorough": "lines up to 3 characters x paths up to 7 bytes; 4 characters x paths up to 4; files x paths up to 8"},
     "assumptions": A_COMMON + ["paths are printable ASCII without a leading or doubled slash", "'[' character classes and backslash escapes are not part of the documented rule language and are left out of the family"],
     "groups": [ign_group("eval", ["harness/ignorefiles/c03.go"],
                          quick=c03_line_items(1, [1, 2, 3, 4, 5], 12) + c03_line_items(2, [1, 2, 3, 4, 5], 36) + c03_line_items(3, [3], 144)
-                         + [{"id": "file-%02d-p%d" % (f, n), "entry": "HarnessC03Files", "params": {"file": f, "nPath": n}} for f in range(16) for n in (2, 3, 4, 5)],
+                         + [{"id": "file-%02d-p%d" % (f, n), "entry": "HarnessC03Files", "params": {"file": f, "nPath": n}} for f in range(20) for n in (2, 3, 4, 5)],
                          thorough=c03_line_items(2, [6, 7], 24) + c03_line_items(3, [1, 2, 3, 4, 5, 6], 72) + c03_line_items(4, [3, 4], 288)
-                         + [{"id": "file-%02d-p%d" % (f, n), "entry": "HarnessC03Files", "params": {"file": f, "nPath": n}} for f in range(16) for n in (6, 7, 8)],
+                         + [{"id": "file-%02d-p%d" % (f, n), "entry": "HarnessC03Files", "params": {"file": f, "nPath": n}} for f in range(20) for n in (6, 7, 8)],
                          reach=["evaluated", "batch-done"], sample_every=5)],
 }
 
 
 CHECKS["C03"]["groups"].append(
     dict(slug_group("walk", ["harness/slug/unpack.go", "harness/slug/pack.go", "harness/common/ref_ignore.go", "harness/slug/c03walk.go"],
-               quick=[{"id": "walk-f%02d-i%d" % (f, ig), "entry": "HarnessC03Walk", "params": {"file": f, "ignore": ig}} for f in range(16) for ig in (1,)] + [{"id": "walk-f00-i0", "entry": "HarnessC03Walk", "params": {"file": 0, "ignore": 0}}],
-               thorough=[{"id": "walk-f%02d-i%d" % (f, ig), "entry": "HarnessC03Walk", "params": {"file": f, "ignore": ig}} for f in range(16) for ig in (0, 1)],
+               quick=[{"id": "walk-f%02d-i%d" % (f, ig), "entry": "HarnessC03Walk", "params": {"file": f, "ignore": ig}} for f in range(21) for ig in (1,)] + [{"id": "walk-f00-i0", "entry": "HarnessC03Walk", "params": {"file": 0, "ignore": 0}}],
+               thorough=[{"id": "walk-f%02d-i%d" % (f, ig), "entry": "HarnessC03Walk", "params": {"file": f, "ignore": ig}} for f in range(21) for ig in (0, 1)],
                reach=["walked"], sample_every=10)))
 CHECKS["C03"]["groups"][-1]["native_overlays"] = CHECKS["C03"]["groups"][-1]["native_overlays"] + ["native/regexref_native.go"]
 CHECKS["C03"]["anchors"] += ["(*github.com/hashicorp/go-slug.Packer).packWalkFn$1", "github.com/hashicorp/go-slug.matchIgnoreRules"]
-CHECKS["C03"]["bounds"]["quick"] += "; walking layer: Pack over the tree d/, d/f, d/e/, d/e/g, h (names chosen from short lists incl. .terraform, .git, modules, a+b: 96 combinations) with 16 rule files instantiated with those names, ignore processing on (and off for one file)"
+CHECKS["C03"]["bounds"]["quick"] += "; walking layer: Pack over the tree d/, d/f, d/e/, d/e/g, h (names chosen from short lists incl. .terraform, .git, modules, a+b: 96 combinations) with 21 rule files instantiated with those names, ignore processing on (and off for one file)"
 CHECKS["C03"]["bounds"]["thorough"] += "; walking layer with ignore on and off for all 16 rule files"
 
 CHECKS["C03"]["registered"] = True
@@ -433,13 +443,14 @@ def build_items(tier):
     if tier == "quick":
         cfgs = [("r2d1a1", P(nPkg=2, nDeps=1, nReg=0, nAdds=1, relative=1), 1), ("r2d1a2", P(nPkg=2, nDeps=1, nReg=0, nAdds=2, relative=0), 4),
                 ("r3d1a1", P(nPkg=3, nDeps=1, nReg=0, nAdds=1, relative=0), 5),
-                ("g2d1a1", P(nPkg=2, nDeps=1, nReg=1, nAdds=1, relative=0), 8), ("m2d1a1", P(nPkg=2, nDeps=1, nReg=0, nAdds=1, relative=0, symMeta=1, symContent=1), 3)]
+                ("g2d1a1", P(nPkg=2, nDeps=1, nReg=1, nAdds=1, relative=0), 8), ("m2d1a1", P(nPkg=2, nDeps=1, nReg=0, nAdds=1, relative=0, symMeta=1, symContent=1), 3),
+                ("w1d1a2", P(nPkg=1, nDeps=1, nReg=0, nAdds=2, relative=1, warn=1), 2), ("g1d2a1", P(nPkg=1, nDeps=2, nReg=1, nAdds=1, relative=0, twosets=1), 8)]
     else:
         cfgs = [("r2d1a1f2", P(nPkg=2, nDeps=1, nReg=0, nAdds=1, relative=0, finders=2), 16), ("r2d2a1", P(nPkg=2, nDeps=2, nReg=0, nAdds=1, relative=0), 16),
                 ("r2d1a3", P(nPkg=2, nDeps=1, nReg=0, nAdds=3, relative=1), 16), ("r3d1a2", P(nPkg=3, nDeps=1, nReg=0, nAdds=2, relative=1), 16),
                 ("r2d2a2f2", P(nPkg=2, nDeps=2, nReg=0, nAdds=2, relative=1, finders=2), 16), ("g3d1a2", P(nPkg=3, nDeps=1, nReg=1, nAdds=2, relative=1), 16),
                 ("g2d2a1", P(nPkg=2, nDeps=2, nReg=2, nAdds=1, relative=1), 16), ("m3d1a2", P(nPkg=3, nDeps=1, nReg=1, nAdds=2, relative=0, symMeta=1, symContent=1), 16)]
-    return [{"id": "build-" + n, "entry": "HarnessBuild", "params": prm, "shards": sh, "_w": 40} for (n, prm, sh) in cfgs]
+    return [{"id": "build-" + n, "entry": "HarnessBuild", "params": prm, "shards": sh, "_w": 40, "no_hang": True, "max_steps": 3000000} for (n, prm, sh) in cfgs]
 
 
 SB_NOTE = ("Trusted: go/ssa, gosym, z3 / the engine's byte-domain decision procedure (the world's choices are one-byte symbols; most branches are decided on their 256-entry truth tables), the vfs model, "
@@ -473,13 +484,14 @@ CHECKS["C17"] = {
     "explanation": "offered versions, their order, deprecations and the allowed set are symbolic; the selected version is compared with the brute-force newest offered-and-allowed one",
     "anchors": ["github.com/hashicorp/go-slug/sourcebundle.extractVersionListFromResponse", "(*github.com/hashicorp/go-slug/sourcebundle.Builder).findRegistryPackageSource", "(*github.com/hashicorp/go-slug/sourcebundle.Builder).AddRegistrySource",
                 "(*github.com/hashicorp/go-slug/sourcebundle.Bundle).RegistryPackageVersionDeprecation"],
-    "bounds": {"quick": "kernel: 1 offered version with pre-release tag (1-2 chars), 2 offered versions without; 6 allowed-set shapes with symbolic bounds; builder: 1 offered version with components in {0,1,2}",
+    "bounds": {"quick": "kernel: 1 offered version with pre-release tag (1-2 chars), 2 offered versions without; 6 allowed-set shapes with symbolic bounds; builder: 1 offered version (components {0,1}, 6 set shapes) and 2 offered versions (components {0,1}; sets All / Released / Only), two requests each",
                "thorough": "kernel: 2 versions with pre-release tags, 3 without; builder: 2 versions"},
     "assumptions": SB_ASSUME + ["pre-release tags: one identifier of 1-2 characters [0-9a-z]"],
     "groups": [sb_group("versions", ["harness/sourcebundle/c17.go"],
                         quick=[{"id": "kernel-n1-pre", "entry": "HarnessC17Kernel", "params": {"n": 1, "pre": 1}, "shards": 2, "_w": 20},
                                {"id": "kernel-n2", "entry": "HarnessC17Kernel", "params": {"n": 2, "pre": 0}, "shards": 8, "_w": 60},
-                               {"id": "builder-n1", "entry": "HarnessC17Builder", "params": {"n": 1}, "shards": 4, "_w": 20}],
+                               {"id": "builder-n1", "entry": "HarnessC17Builder", "params": {"n": 1, "requests": 2, "vals": 2}, "shards": 8, "_w": 40},
+                               {"id": "builder-n2", "entry": "HarnessC17Builder", "params": {"n": 2, "requests": 2, "sets": 3, "vals": 2}, "shards": 12, "_w": 60}],
                         thorough=[{"id": "kernel-n2-pre", "entry": "HarnessC17Kernel", "params": {"n": 2, "pre": 1}, "shards": 16},
                                   {"id": "kernel-n3", "entry": "HarnessC17Kernel", "params": {"n": 3, "pre": 0}, "shards": 16},
                                   {"id": "builder-n2", "entry": "HarnessC17Builder", "params": {"n": 2}, "shards": 16}],
@@ -588,3 +600,46 @@ CHECKS["C12"] = {
 
 for _p in ("C09", "C10", "C12", "C18"):
     CHECKS[_p]["registered"] = True
+
+
+CHECKS["C19"]["groups"].append(
+    slug_group("unpack", ["harness/slug/unpack.go"],
+               quick=[{"id": "unpack-K1-3x3", "entry": "HarnessUnpackSafety", "params": {"K": 1, "nName": 3, "nLink": 3}, "no_panic": True, "shards": 2, "_w": 30},
+                      {"id": "unpack-K2-1x1", "entry": "HarnessUnpackSafety", "params": {"K": 2, "nName": 1, "nLink": 1}, "no_panic": True, "shards": 4, "_w": 30}],
+               thorough=[{"id": "unpack-K1-5x4", "entry": "HarnessUnpackSafety", "params": {"K": 1, "nName": 5, "nLink": 4}, "no_panic": True, "shards": 16},
+                         {"id": "unpack-K2-2x2", "entry": "HarnessUnpackSafety", "params": {"K": 2, "nName": 2, "nLink": 2}, "no_panic": True, "shards": 16}],
+               reach=["unpack-ok", "unpack-error"], sample_every=60))
+CHECKS["C19"]["bounds"]["quick"] += "; Unpack of K=1 entry (name / target 0..3 arbitrary bytes) and K=2 (0..1)"
+CHECKS["C19"]["anchors"] += ["(*github.com/hashicorp/go-slug.Packer).Unpack", "github.com/hashicorp/go-slug/internal/unpackinfo.NewUnpackInfo"]
+
+# C10: ignore-driven deletion interleaved with validation, and the coalescing builds of the world harness
+CHECKS["C10"]["groups"][0]["quick"] += [{"id": "c10-rules", "entry": "HarnessC10Rules", "params": {"sLink": 3}, "shards": 2, "_w": 30}]
+CHECKS["C10"]["groups"][0]["thorough"] += [{"id": "c10-rules", "entry": "HarnessC10Rules", "params": {"sLink": 4}, "shards": 8}]
+CHECKS["C10"]["groups"].append(
+    sb_group("build", ["harness/sourcebundle/c14.go"],
+             quick=[it for it in build_items("quick") if it["id"] in ("build-m2d1a1", "build-r2d1a1")], thorough=[it for it in build_items("thorough") if "m3" in it["id"]],
+             reach=["built"], sample_every=200))
+CHECKS["C10"]["bounds"]["quick"] += "; a package with rule file '*.log', c/a.log, c/k, c/m.log and a link c/z with a symbolic target (<=3 segments); world builds with coalescing packages (no temporary directory left, nothing outside touched)"
+
+# C20 / C02 / C05 extra items
+for _pid in ("C20", "C02", "C05"):
+    g = CHECKS[_pid]["groups"][0]
+    g["quick"] = list(g["quick"])
+    g["thorough"] = list(g["thorough"])
+CHECKS["C20"]["groups"][0]["quick"] += [{"id": "pack-N3-ext", "entry": "HarnessPack", "params": {"N": 3, "nLink": 1, "opts": 0, "ext": 1}, "shards": 10, "_w": 60}]
+CHECKS["C20"]["bounds"]["quick"] += "; N=3 with names that extend the previous node's name by one byte (a next to a-)"
+CHECKS["C02"]["groups"][0]["quick"] += [{"id": "pack-N1-name3", "entry": "HarnessPack", "params": {"N": 1, "nLink": 2, "opts": 0, "nName": 3}, "shards": 4, "_w": 30}]
+CHECKS["C02"]["bounds"]["quick"] += "; N=1 with names of 1..3 free bytes"
+CHECKS["C05"]["groups"][0]["quick"] += [{"id": "pack-N1-allow", "entry": "HarnessPack", "params": {"N": 1, "nLink": 5, "opts": 4}, "shards": 4, "_w": 30},
+                                        {"id": "pack-N1-allow-deref", "entry": "HarnessPack", "params": {"N": 1, "nLink": 5, "opts": 5}, "shards": 4, "_w": 30},
+                                        {"id": "pack-N1-l5-deref", "entry": "HarnessPack", "params": {"N": 1, "nLink": 5, "opts": 1}, "shards": 4, "_w": 30}]
+CHECKS["C05"]["bounds"]["quick"] += "; N=1 with link targets up to 5 bytes: plain dereference (incl. the external directory /w/e holding an absolute in-directory link), relative allow-list entry '../e' with and without dereferencing"
+# C16 repack
+CHECKS["C16"]["groups"][0]["quick"] = list(CHECKS["C16"]["groups"][0]["quick"]) + [{"id": "repack", "entry": "HarnessC16Repack", "shards": 4, "_w": 40}]
+CHECKS["C16"]["groups"][0]["reach"] = CHECKS["C16"]["groups"][0]["reach"] + ["rule-file-edited"]
+CHECKS["C16"]["bounds"]["quick"] += "; repack of a directory after its rule file was replaced (12 x 12 rule files)"
+
+CHECKS["C16"]["groups"][0]["quick"] += [{"id": "overlap", "entry": "HarnessC16Overlap", "shards": 4, "_w": 40}]
+CHECKS["C16"]["groups"][0]["reach"] += ["overlapping-call"]
+CHECKS["C16"]["bounds"]["quick"] += "; two Pack calls on one Packer overlapping at the granularity of output writes (second call runs when the first first writes; 12 x 12 rule files)"
+CHECKS["C16"]["level_note"] = CHECKS["C16"]["level_note"].replace("Concurrent Pack calls (goroutine schedules, data races) are not addressable by this technique and are not claimed.", "Concurrent Pack calls are covered only at the granularity of output writes (a second call on the same Packer runs to completion when the first call first writes to its output); goroutine schedules below that, data races and the memory model are not addressable by this technique and are not claimed.")
